@@ -623,3 +623,57 @@ Proof.
   intros H Hk. unfold type_ref, resolve. rewrite H. cbn [resolve_from].
   destruct Hk as [->|[->| ->]]; reflexivity.
 Qed.
+
+(* ------------------------------------------------------------------ case branches that static evaluation removes (C10-F7) *)
+
+Theorem dead_branch_judged_like_a_live_one c sc id :
+  cfg_dead_case_checked c = true -> lower_ref_dead c sc id = lower_ref c sc id.
+Proof. intro H. unfold lower_ref_dead. rewrite H. reflexivity. Qed.
+
+(* in particular: never dropped unchecked *)
+Theorem dead_branch_never_unchecked c sc id :
+  cfg_dead_case_checked c = true -> lower_ref_dead c sc id <> ODropped.
+Proof.
+  intro H. rewrite (dead_branch_judged_like_a_live_one c sc id H).
+  unfold lower_ref, lower_ref_in, lower_that, of_kind.
+  destruct (resolve sc id) as [x|i|e]; [|destruct i; discriminate|discriminate].
+  destruct x as [k|k|k| | | |t]; try discriminate; try (destruct k; discriminate).
+  destruct t; [|discriminate]. destruct (s_that sc); [discriminate|]. destruct (cfg_that_rejected c); discriminate.
+Qed.
+
+(* what the resolver itself rejects is rejected in a dead branch whatever the flag *)
+Theorem dead_branch_resolver_errors_stay c sc id e :
+  resolve sc id = RErr e -> lower_ref_dead c sc id = OErr e.
+Proof.
+  intro H. unfold lower_ref_dead, checked_at_lowering, lower_ref, lower_ref_in. rewrite H.
+  rewrite andb_false_r. reflexivity.
+Qed.
+
+(* without the check a module or relation name in a dead branch is dropped unseen *)
+Theorem dead_branch_module_dropped c sc n k :
+  cfg_dead_case_checked c = false ->
+  lookup sc ([], n) = [k] -> (k = CRoot NModule \/ k = CStd NModule \/ k = CRoot NTable) ->
+  lower_ref_dead c sc ([], n) = ODropped.
+Proof.
+  intros H Hl Hk. unfold lower_ref_dead, checked_at_lowering, resolve. rewrite H, Hl. cbn [resolve_from negb andb].
+  destruct Hk as [->|[->| ->]]; reflexivity.
+Qed.
+
+(* ------------------------------------------------------------------ calls of std operators in relation positions (C10-F4) *)
+
+Theorem std_call_is_not_a_relation c a :
+  cfg_std_call_rejected c = true -> a <> SRel -> seen c a <> ARel.
+Proof. intros H Ha. destruct a; cbn [seen]; try rewrite H; try discriminate. congruence. Qed.
+
+Theorem std_call_where_relation_rejected c f args named i :
+  cfg_std_call_rejected c = true ->
+  nth_error (fs_params f) i = Some PRel -> nth_error args i = Some (seen c SStdCall) ->
+  length args = length (fs_params f) ->
+  exists e, apply_fn f args named = AErr e.
+Proof.
+  intros H Hp Ha L. eapply nonrelation_where_relation_rejected; try eassumption.
+  apply std_call_is_not_a_relation; [exact H | discriminate].
+Qed.
+
+Theorem std_call_taken_for_a_table c : cfg_std_call_rejected c = false -> seen c SStdCall = ARel.
+Proof. intro H. cbn [seen]. rewrite H. reflexivity. Qed.
